@@ -225,6 +225,31 @@ theorem shape_getsMany (cfg : Cfg) (ks : List Key.K) : Shape cfg (.getsMany ks) 
       (fun ie so sc => by simp only [call, hks, if_false] <;> rfl)
       (fun hs => by simp [owed, hs, effNoreply])
 
+/-! ## the administrative operations built on `_fetch_cmd` -/
+
+theorem shape_stats (cfg : Cfg) (args : List Key.K) : Shape cfg (.stats args) := by
+  cases hw : args.mapM (checkArg cfg) with
+  | error e => exact .silent (.error .illegalInput) (fun ie so sc => by simp only [call, hw, early])
+  | ok wire =>
+    have hcall : ∀ ie so sc, call cfg ie so (.stats args) sc =
+        mapOut (exchangeFetch .stats (adminFetchCmd (ofString "stats") wire) wire ie so sc)
+          fun r => .ok (.stats (statsDict (wire.zip args) r)) :=
+      fun ie so sc => by simp only [call, hw]
+    exact .fetch _ _ wire _ hcall (by simp [owed, sends_of_fetch hcall, effNoreply])
+
+theorem shape_cacheMemlimit (cfg : Cfg) (m : IntArg) : Shape cfg (.cacheMemlimit m) := by
+  cases hm : checkInteger m with
+  | error e => exact .silent (.error .illegalInput) (fun ie so sc => by simp only [call, hm, early])
+  | ok i =>
+    cases hw : checkArg cfg (.bytes (intDec i)) with
+    | error e => exact .silent (.error .illegalInput) (fun ie so sc => by simp only [call, hm, hw, early])
+    | ok w =>
+      have hcall : ∀ ie so sc, call cfg ie so (.cacheMemlimit m) sc =
+          mapOut (exchangeFetch (.values false) (adminFetchCmd (ofString "cache_memlimit") [w]) [w] ie so sc)
+            fun r => .ok ((fun _ => Res.bool true) r) :=
+        fun ie so sc => by simp only [call, hm, hw]
+      exact .fetch _ _ [w] _ hcall (by simp [owed, sends_of_fetch hcall, effNoreply])
+
 theorem shape (cfg : Cfg) (c : Call) : Shape cfg c := by
   cases c with
   | store => exact shape_store ..
@@ -243,4 +268,7 @@ theorem shape (cfg : Cfg) (c : Call) : Shape cfg c := by
   | version => exact shape_version ..
   | quit => exact .quit rfl
   | raw => exact shape_raw ..
+  | stats => exact shape_stats ..
+  | cacheMemlimit => exact shape_cacheMemlimit ..
+  | shutdown g => exact .shutdown g rfl
 end Client
